@@ -659,13 +659,51 @@ def probing_stream(ctx, hexe, dexe, n_cases):
     return found
 
 
+HARNESS_EXTRA = ["/util/bit_packing.cc", "/util/exception.cc", "/util/integer_to_string.cc", "/util/mmap.cc",
+                 "/util/file.cc", "/util/scoped.cc", "/util/parallel_read.cc", "/util/spaces.cc", "/util/string_piece.cc"]
+
+
+def replay(ctx, path):
+    """Re-run the op script of a replay file on the real code and on the model.  Exit code 1 if it
+    still fails (harness dies / loops, the oracle rejects an answer, or model and code disagree)."""
+    import json
+    obj = json.load(open(path))
+    ops = obj.get("ops")
+    if not ops:
+        log("replay file has no op script (broken obligations: %s)" % obj.get("broken"))
+        return 1
+    ok, out = lean.lake_build(["drv_C20"])
+    ok2, hexe, lg = repo.harness("c20.cc", extra=[REPO + x for x in HARNESS_EXTRA])
+    if not ok or not ok2:
+        log("cannot build driver/harness: %s" % (lg if ok else out[-500:]))
+        return 1
+    dexe = lean.driver_path("drv_C20")
+    rc1, o1, e1 = stream.run_lines(hexe, ops, timeout=20)
+    rc2, o2, e2 = stream.run_lines(dexe, ops, timeout=60)
+    bad = False
+    if rc1 != 0:
+        log("real code: rc=%s %s" % (rc1, e1[-600:]))
+        bad = True
+    elif str(obj.get("stream", "")).startswith("probing"):
+        m = oracle_mismatch(ops, o1)
+        if m:
+            log("oracle rejects answer %d: op %r, real code %r, expected %r" % (
+                m[0], ops[m[0]], o1[m[0]] if m[0] < len(o1) else None, m[1]))
+            bad = True
+    d = stream.first_diff(o1, o2)
+    if d is not None:
+        log("model and implementation differ at op %d %r: impl %r model %r" % (
+            d, ops[d] if d < len(ops) else None, o1[d] if d < len(o1) else None, o2[d] if d < len(o2) else None))
+        bad = True
+    for i, op in enumerate(ops):
+        log("  %-40s impl=%-30s model=%s" % (op[:40], (o1[i] if i < len(o1) else None), (o2[i] if i < len(o2) else None)))
+    log("replay: %s" % ("still failing" if bad else "passes"))
+    return 1 if bad else 0
+
+
 def run(ctx):
     problems, consts = flow.proof_phase(ctx, "C20", required=REQUIRED, drivers=["drv_C20"])
-    ok, hexe, lg = repo.harness("c20.cc", extra=[REPO + "/util/bit_packing.cc", REPO + "/util/exception.cc",
-                                                 REPO + "/util/integer_to_string.cc", REPO + "/util/mmap.cc",
-                                                 REPO + "/util/file.cc", REPO + "/util/scoped.cc",
-                                                 REPO + "/util/parallel_read.cc", REPO + "/util/spaces.cc",
-                                                 REPO + "/util/string_piece.cc"])
+    ok, hexe, lg = repo.harness("c20.cc", extra=[REPO + x for x in HARNESS_EXTRA])
     if not ok:
         problems.append(lg)
         flow.report_obligation_failures(ctx, problems, False)
